@@ -146,8 +146,9 @@ def evaluate(case):
         "lock_edges": sorted("%s->%s" % k for k in s.lock_edges),
     }
     viols = []
+    strict = bool(case["prog"].get("strict"))  # a program that must pass as it stands: no known-finding recognition
     if s.end_reason in ("deadlock", "stuck", "vtime"):
-        sig = known_shape(s, w) or signature(s)
+        sig = (None if strict else known_shape(s, w)) or signature(s)
         detail = {
             "end_reason": s.end_reason,
             "deadlock": s.deadlock,
@@ -166,7 +167,7 @@ def evaluate(case):
         if stuck_ops:
             o = stuck_ops[0]
             where = [t for t in s.final_threads if t["name"] == o["thread"]]
-            sig = known_shape(s, w) or "C04:call-never-returned:%s-on-%s" % (o["op"][0], o["thread"].split("-")[0])
+            sig = (None if strict else known_shape(s, w)) or "C04:call-never-returned:%s-on-%s" % (o["op"][0], o["thread"].split("-")[0])
             viols.append({"signature": sig,
                           "detail": {"op": o["op"][:3], "thread": where, "end_reason": s.end_reason}})
     if w is not None and w.errors:
@@ -232,6 +233,17 @@ def catalog():
             "setup": [["build", "ex", st], sub("f0")],
             "threads": [[sub("f1"), ["result", "f1", 50]], [["shutdown", "ex", True]], [sub("f2"), ["cancel", "f2"]]],
             "settle": 5,
+        }
+    # a future somewhere down the chain is cancelled by the shutdown sweep (the layers above learn of it through their
+    # delegate's callbacks, bottom-up) while another thread cancels the top of the chain (top-down)
+    for tops, nm in (([{"kind": "map", "fn": [["app", "m"]], "err": None}, {"kind": "map", "fn": [["app", "n"]], "err": None}], "cos+map+map"),
+                     ([{"kind": "flat_map", "fn": [["futarg", "done"]], "err": None}, {"kind": "timeout", "t": 5000.0}], "cos+flat_map+timeout"),
+                     ([{"kind": "retry", "policy": {"type": "exc", "max_attempts": 2, "sleep": 0.25}}, {"kind": "map", "fn": [["app", "m"]], "err": None}], "cos+retry+map")):
+        st = {"base": {"kind": "pool", "workers": 1}, "layers": [{"kind": "cos"}] + tops}
+        out["%s/pool1/sweep-cancel|cancel" % nm] = {
+            "setup": [["build", "ex", st], sub("p0", [["gate", "g", ["tag"]]]), sub("f1"), sub("f2"), ["sleep", 0.1]],
+            "threads": [[["shutdown", "ex", False]], [["cancel", "f1"], ["cancel", "f2"]], [["add_cb", "f2", "cb2"], ["sleep", 0.5], ["open", "g"]]],
+            "final": [["open", "g"]], "settle": 3,
         }
     return out
 
@@ -319,6 +331,15 @@ def nested_cases():
         "threads": [[["submit", "ex", "f0", {"script": [["tag"]]}], ["add_cb", "f0", "cb0", ["op", ["submit", "ex", "n0", inner]]], ["sleep", 0.5],
                      ["result", "n0", 5]],
                     [["sleep", 0.5], ["submit", "ex", "f1", {"script": [["tag"]]}], ["result", "f1", 5]]],
+        "final": [["shutdown", "ex", True]], "settle": 2}))
+    # (b7) a blocking throttle with spare pool workers: a done-callback of a throttled future submits again while one job is
+    #      queued.  The slot of the finished job is free before its callbacks run, so the nested submit() returns - this
+    #      program must pass, and is judged without the known-finding recognisers ("strict")
+    out.append(("callback-internal/throttle-block-nested-from-callback-with-a-free-slot", {
+        "strict": True,
+        "setup": [["build", "ex", {"base": {"kind": "pool", "workers": 2}, "layers": [{"kind": "throttle", "count": 1, "block": True}]}]],
+        "threads": [[["submit", "ex", "f0", {"script": [["gate", "g", ["tag"]]]}], ["add_cb", "f0", "cb0", ["op", ["submit", "ex", "n0", inner]]],
+                     ["submit", "ex", "f1", {"script": [["tag"]]}], ["sleep", 0.25], ["open", "g"], ["result", "f0", 5], ["result", "f1", 5], ["sleep", 0.5], ["result", "n0", 5]]],
         "final": [["shutdown", "ex", True]], "settle": 2}))
     # (b5) known findings K2N / K3 as deterministic programs (excluded by signature, counted in the evidence)
     out.append(("callable/throttle-block-nested-from-the-only-pool-worker", {
